@@ -16,6 +16,10 @@ import (
 //	mode 1: at a path that already holds a LONGER file (a bigger document
 //	        followed by junk that ends in a plausible "startxref … %%EOF"),
 //	mode 2: at a path that holds a shorter file,
+//	mode 3: NewWriter on an *os.File which already holds other data and is
+//	        positioned behind it (a PDF file appended to a preamble: all
+//	        positions are counted from %PDF-, the seek-back for /Length must add
+//	        the offset of the first byte),
 //
 // then the bytes are read back from disk, judged by the independent checker
 // (Spec/FIOFileWF.lean) against the Writer's own cross-reference table, and —
@@ -25,7 +29,7 @@ import (
 // final %%EOF.  The files live in a directory made with os.MkdirTemp which is
 // removed at the end of the run.
 
-const fioCreateModes = 3
+const fioCreateModes = 4
 
 // fioCreatePrefill is what the path holds before pdf.Create is called.
 func fioCreatePrefill(mode int, ref []byte, salt int) []byte {
@@ -53,7 +57,7 @@ func fioCreatePrefill(mode int, ref []byte, salt int) []byte {
 // path according to mode; ref is the output of the buffer run.
 func fioRunCreate(dir string, p *fioProg, mode int, ref []byte, salt int) (*fioResult, error) {
 	path := filepath.Join(dir, fmt.Sprintf("f%d.pdf", salt))
-	if mode != 0 {
+	if mode == 1 || mode == 2 {
 		if err := os.WriteFile(path, fioCreatePrefill(mode, ref, salt), 0o600); err != nil {
 			return nil, err
 		}
@@ -64,6 +68,10 @@ func fioRunCreate(dir string, p *fioProg, mode int, ref []byte, salt int) (*fioR
 	q.ops = append([]fioOp(nil), p.ops...)
 	q.seekable = true // an *os.File is an io.WriteSeeker
 	q.createPath = path
+	if mode == 3 {
+		os.Remove(path)
+		q.createPrefix = []byte(fmt.Sprintf("preamble of %d bytes, not part of the PDF file %s\n", 60+salt%300, strings.Repeat("#", salt%300)))
+	}
 	res := fioExec(&q, nil)
 	os.Remove(path)
 	return res, nil
@@ -90,6 +98,9 @@ func oracleCreate(ref, disk *fioResult, mode int) (v []fioViolation) {
 	if disk.failedAt != -1 {
 		return []fioViolation{{"create-failed", fmt.Sprintf("mode %d: the program accepted by NewWriter failed through pdf.Create at op %d: %v", mode, disk.failedAt, disk.err)}}
 	}
+	if disk.prefixDamaged {
+		v = append(v, fioViolation{"seek-base-offset", fmt.Sprintf("mode %d: the bytes which the file held before NewWriter was called were overwritten", mode)})
+	}
 	if !bytes.HasSuffix(disk.file, []byte("%%EOF\n")) {
 		tail := disk.file[max(0, len(disk.file)-40):]
 		v = append(v, fioViolation{"create-no-eof-at-end", fmt.Sprintf("mode %d: the file on disk (%d bytes) does not end in %%%%EOF: …%q", mode, len(disk.file), tail)})
@@ -102,6 +113,9 @@ func oracleCreate(ref, disk *fioResult, mode int) (v []fioViolation) {
 		key := "create-bytes-differ"
 		if len(disk.file) > len(ref.file) && k == len(ref.file) {
 			key = "create-stale-tail"
+		}
+		if mode == 3 {
+			key = "seek-base-offset"
 		}
 		v = append(v, fioViolation{key, fmt.Sprintf("mode %d: pdf.Create left %d bytes on disk, NewWriter on a buffer produced %d bytes for the same operations; first difference at offset %d", mode, len(disk.file), len(ref.file), k)})
 	}
@@ -158,6 +172,12 @@ func runFIOCreate(c *Ctx) {
 			}
 			// the independent checker on the bytes read from disk
 			chk, want, _, _, err := fioChkLines(disk)
+			if err != nil && disk.prog.encrypt && disk.nextRef > 8192 && strings.Contains(err.Error(), "invalid cross-reference table") {
+				// finding D26 (reported under C02): the library's reader, which the harness
+				// needs to decrypt object streams, refuses the file
+				c.Stat("create_skipped_library_reader_refuses_file")
+				continue
+			}
 			if err != nil {
 				c.Violate("create-wf", "file-not-parseable", fmt.Sprintf("mode %d: taking the file on disk apart: %v", mode, err), input)
 				continue
